@@ -198,6 +198,16 @@ def _MockReg(width, access):
     return MockReg()
 
 
+def _peek_more(mm, addr):
+    """The other queries a user can make of a half-built map (flattened listing, address lookups at the window just
+    placed and at both ends of the space); none may change what the finished decoder says or does."""
+    try:
+        list(mm.all_resources())
+    except Exception:
+        pass
+    mm.decode_address(addr); mm.decode_address(0); mm.decode_address((1 << mm.addr_width) - 1)
+
+
 def build(cfg):
     from amaranth_soc import csr, wishbone
     from amaranth_soc.memory import MemoryMap
@@ -259,6 +269,7 @@ def build(cfg):
                 # looking at a half-built decoder (listing its windows, as a log message or an early elaboration
                 # would) must not change what it becomes
                 list(dec.bus.memory_map.windows()); list(dec.bus.memory_map.window_patterns())
+                _peek_more(dec.bus.memory_map, r[0])
         return b
     return mk(cfg["root"])
 
